@@ -36,8 +36,14 @@ PROPERTIES["C03"] = dict(
 PROPERTIES["C02"] = dict(
     units=["authz"],
     technique="Verus contracts on the extracted real functions (decision spec from the statement, loop invariants over HashMap/HashSet iteration)",
-    level_text="Deductive proof (Verus/Z3) for every rule set, caller and URL: is_allowed, extracted verbatim, returns exactly the declared decision.",
-    level_note="see evidence trusted_base",
+    level_text="Deductive proof (Verus/Z3) for every rule set (as the agent holds it: name-indexed tables), caller and URL: "
+               "ComputedAuthorizationItem::is_allowed, Privilege::is_match, Identity::is_match and hyper_client::query_pairs, extracted "
+               "verbatim, return exactly the decision / match / parameter list written from the statement; order-independence over "
+               "HashMap/HashSet iteration is part of the proof because the postcondition mentions no order.",
+    level_note="Trusted: Verus/Z3/rustc; assumed specs of str::to_lowercase/starts_with/split/splitn, Uri::path/query, OsString/PathBuf "
+               "From<&String> and ==, HashMap/HashSet model; `find` returns the first element satisfying the (verified, lifted) closure. "
+               "Not yet under contract: from_authorization_item (document -> tables; duplicate names in a section make the last one win), "
+               "so the claim is over the tables the agent holds. A request repeating a query key is matched on its first occurrence.",
     design_ref="DESIGN.md section 3 C02",
     assumptions=[],
 )
